@@ -431,6 +431,25 @@ def totality_cases(ctx):
             ps = G.NAMED[b]
             for _ in range(ctx.pick(8, 300)):
                 add('bif-named', '%s(%s)' % (b, ', '.join('%s: %s' % (p, rng.choice(pool)) for p in rng.sample(ps, rng.randint(1, len(ps))))))
+    # string functions with a second string argument: the match string occurs in the input and contains characters of every UTF-8 length (byte offsets
+    # of str::find mixed with character counts is a classic slicing panic; seeded change C05_c: substring after with a non-ASCII match string)
+    uni = ['\u00e9', '\u0142', '\u20ac', '\u2192', '\U0001F600', 'e\u0301', '\u00df\u00df', 'a\u20acb', '\u20ac\u20ac', '\U0001F600\u00e9']
+    hay = ['%s', 'x%s', '%sx', 'x%sy', '%s%s', '\u00e9%s\u20ac', '\U0001F600%sz\u00e9', 'ab%s\u20ac%scd']
+    for b in ('substring after', 'substring before', 'contains', 'starts with', 'ends with', 'split', 'matches', 'replace', 'string join', 'index of'):
+        for m in uni:
+            for h in (hay if not ctx.quick else rng.sample(hay, 4)):
+                text = h.replace('%s', m)
+                if b == 'replace':
+                    add('bif-unicode', 'replace("%s", "%s", "%s")' % (text, m, rng.choice(['', 'z', m + m, '$0'])))
+                elif b == 'string join':
+                    add('bif-unicode', 'string join(["%s", "%s"], "%s")' % (text, m, m))
+                elif b == 'index of':
+                    add('bif-unicode', 'index of(["%s", "%s"], "%s")' % (text, m, m))
+                else:
+                    add('bif-unicode', '%s("%s", "%s")' % (b, text, m))
+                    if b in G.NAMED and rng.random() < 0.3:
+                        ps = G.NAMED[b]
+                        add('bif-unicode', '%s(%s: "%s", %s: "%s")' % (b, ps[1], m, ps[0], text))
     for op in G.BINOPS + ['between']:
         for _ in range(ctx.pick(60, 3000)):
             a, b, c = rng.choice(pool), rng.choice(pool), rng.choice(pool)
